@@ -365,7 +365,73 @@ def facts(src):
                     "__run: the `except Exception` handler around future.execute (and the ValueError raised by enqueue) reads "
                     "no attribute of the task other than through getattr with a default: it cannot raise for a "
                     "functools.partial / callable instance; task_done() sits in the finally block", json_value=safe))
+    # ---- the future's event publishes LAST -----------------------------------------------------------------------------
+    # The pool model's `fut.set` is one step: the flag of the future's event AND everything the worker does up to
+    # `queue.task_done`.  That is exact only when nothing a client can read from the future (data, exception) is written
+    # after the flag has been raised: both fields first, the flag - `self.__event.set()` - as the last statement.
+    pub = []
+    for name in ("set", "raise_exception"):
+        fn = src.func("threadpool", "EventData." + name)
+        row = _publish_order(fn) if fn is not None else None
+        if row is None:
+            pub = None
+            break
+        pub.append((name, row[0], row[1]))
+    out.append(Fact(
+        "poolFuturePublishesLast", "List (String × List String × List String)",
+        None if pub is None else "[" + ", ".join(
+            "(%s, [%s], [%s])" % (lean_str(n), ", ".join(lean_str(x) for x in b), ", ".join(lean_str(x) for x in a))
+            for n, b, a in pub) + "]",
+        ["C09"], "EventData.set / raise_exception: (method, fields stored BEFORE the statement that raises the event's flag, "
+                 "what is executed AFTER it) - the future reports done only once its data and exception are in place",
+        json_value=None if pub is None else [list(r) for r in pub]))
     return out
+
+
+def _stored_fields(st):
+    """Private attributes of self that the statement stores (plain, tuple and augmented assignments)."""
+    found = []
+    targets = []
+    if isinstance(st, ast.Assign):
+        targets = list(st.targets)
+    elif isinstance(st, (ast.AugAssign, ast.AnnAssign)):
+        targets = [st.target]
+    while targets:
+        t = targets.pop()
+        if isinstance(t, (ast.Tuple, ast.List)):
+            targets.extend(t.elts)
+        elif _self_attr(t) is not None:
+            found.append(_self_attr(t))
+    return found
+
+
+def _raises_flag(st):
+    """The statement raises the flag: `self.__event.set()`, or a call of a method of self that does (`self.set(...)`)."""
+    for n in ast.walk(st):
+        if isinstance(n, ast.Call) and isinstance(n.func, ast.Attribute):
+            if n.func.attr == "set" and _self_attr(n.func.value) == "__event":
+                return True
+            if n.func.attr in ("set", "raise_exception") and isinstance(n.func.value, ast.Name) and n.func.value.id == "self":
+                return True
+    return False
+
+
+def _publish_order(fn):
+    """(sorted fields stored before the first flag-raising statement, descriptions of the statements after it) or None."""
+    body = [st for st in fn.body if not (isinstance(st, ast.Expr) and isinstance(st.value, ast.Constant))]
+    at = next((k for k, st in enumerate(body) if _raises_flag(st)), None)
+    if at is None or not isinstance(body[at], ast.Expr):
+        return None
+    before = []
+    for st in body[:at]:
+        if not isinstance(st, (ast.Assign, ast.AugAssign, ast.AnnAssign)):
+            return None  # a branch / loop / call before the flag: not the straight-line shape the model describes
+        before.extend(_stored_fields(st))
+    after = []
+    for st in body[at + 1:]:
+        fields = _stored_fields(st)
+        after.append("store:" + ",".join(sorted(fields)) if fields else type(st).__name__)
+    return sorted(set(before)), after
 
 
 _SAFE_ATTR_OWNERS = ("self",)
